@@ -47,10 +47,35 @@ def toml_val(v):
     raise TypeError(type(v))
 
 
+def spelled(seconds, how):
+    """the same period written as a number of seconds, as [value, unit] or as an ISO 8601 duration"""
+    if how == 1:
+        return [seconds // 3600, "h"] if seconds % 3600 == 0 else ([seconds // 60, "m"] if seconds % 60 == 0 else [seconds, "s"])
+    if how == 2:
+        h, m, sec = seconds // 3600, (seconds // 60) % 60, seconds % 60
+        return "PT" + (f"{h}H" if h else "") + (f"{m}M" if m else "") + (f"{sec}S" if sec or not (h or m) else "")
+    return seconds
+
+
 def build(sc, d):
     """Write the input files and return the three configurations (v2 dict, v1 dict)."""
     d = Path(d)
     conf2 = scen.write(sc, d)                     # canonical v2 (with header in the release file)
+    ff = sorted(globmod.glob(str(d / "forcing_*.nc")))
+    if len(ff) >= 2 and sc.get("_unpadded"):
+        # file numbers without leading zeros: forcing_10.nc comes before forcing_2.nc in the (lexicographic) order of the forcing
+        # module, and holds the earliest frames; the later files describe another grid metric, which nobody may read: the grid of a
+        # run without a grid section is that of the *first* forcing file, in the forcing module's order
+        from netCDF4 import Dataset
+        for n, f in enumerate(ff):
+            new = d / f"forcing_{10 if n == 0 else n + 1}.nc"
+            os.rename(f, new)
+            if n > 0:
+                with Dataset(new, "a") as nc:
+                    nc.variables["pm"][:] = nc.variables["pm"][:] * 0.5
+                    nc.variables["pn"][:] = nc.variables["pn"][:] * 0.5
+        if "grid" in conf2 and "filename" in conf2["grid"]:
+            conf2["grid"]["filename"] = str(d / "forcing_10.nc")
     # release file without header for the v1 spelling (names come from the configuration)
     names = ["release_time", "mult", "X", "Y", "Z"]
     rows = [dict(release_time=scen.sim2time(sc, x["step"]), mult=x["mult"], X=x["X"], Y=x["Y"], Z=x["Z"]) for x in sc["rows"]]
@@ -158,6 +183,21 @@ def run_case(sc):
         for tag, ver, fmt in (("v2toml_version_string", "2.0", "toml"), ("v2yaml_version_float", 2.0, "yaml"), ("v2yaml_version_str", "2", "yaml")):
             vv = copy.deepcopy(conf2); vv["version"] = ver; vv["output"]["filename"] = str(d / f"out_{tag}.nc")
             spellings[tag] = (fmt, vv)
+        # the same run in other words: periods as ISO 8601 durations / [value, unit], keys that have their default value left out
+        rs = copy.deepcopy(conf2); rs["output"]["filename"] = str(d / "out_respelled.nc")
+        rs["time"]["dt"] = spelled(scen.DT, 2)
+        rs["output"]["output_period"] = spelled(sc["period"] * scen.DT, 1 if sc["seed"] % 2 else 2)
+        if not rs["output"].get("numrec"):
+            rs["output"].pop("numrec", None)
+        if rs["output"].get("layout") == "sparse":
+            rs["output"].pop("layout", None)
+        if not rs["time"].get("time_reversal"):
+            rs["time"].pop("time_reversal", None)
+        if rs["release"].get("continuous"):
+            rs["release"]["release_frequency"] = spelled(sc["freq"] * scen.DT, 2 if sc["seed"] % 2 else 1)
+        else:
+            rs["release"].pop("continuous", None); rs["release"].pop("release_frequency", None)
+        spellings["v2_respelled"] = ("yaml", rs)
         e = copy.deepcopy(conf2); e["warm_start"] = {}; e["output"]["filename"] = str(d / "out_explicit.nc")
         e.setdefault("grid", dict(module="ladim.ROMS", filename=sorted(globmod.glob(str(d / "forcing_*.nc")))[0]))
         spellings["v2_explicit_sections"] = ("yaml", e)
@@ -372,6 +412,11 @@ def run(ctx: Ctx):
     cases = []
     for k in range(n):
         sc = scen.gen(ctx.seed * 100000 + 18000 + k, rev=False, layout="sparse", numrec=0, vertadv=False, kills=(k % 2 == 0), files=[1, 2][k % 2])
+        if k % 6 == 5:
+            # several steps in a flow, every step recorded, two forcing files with unpadded numbers (see build)
+            sc = scen.gen(ctx.seed * 100000 + 18000 + k, rev=False, layout="sparse", numrec=0, vertadv=False, kills=False, files=2, nsteps=6, period=1,
+                          speed=1.0, land=False, subgrid="none")
+            sc["_unpadded"] = True
         if k % 3 == 0:
             sc["_D"] = 0.0
         cases.append(sc)
@@ -418,6 +463,47 @@ def run(ctx: Ctx):
                               dict(status=r["status"], first_difference=what, reference=str(ref["files"])[:400], this=str(r["files"])[:400],
                                    theorem="Ladim.C18.v1_eq_v2 / defaults_are_empty_sections / grid_default_from_forcing"),
                               tags=dict(first=name))
+
+    # ---- from the configuration file to the output files, through the model (Ladim.runFile): the model is given the parsed
+    # configuration and the data of the run; what the request says about time step, direction, scheme, output period, layout,
+    # records per file, release mode and subgrid is scrambled on purpose — the model must take all of that from the configuration
+    reqs, meta = [], []
+    for sc, g in zip(cases, res):
+        if sc.get("_D"):
+            continue
+        for name in ("v2yaml", "v2toml", "v1yaml", "v2_respelled", "v2_no_grid_section", "v2_explicit_sections"):
+            if name not in g["runs"] or name not in g["trees"]:
+                continue
+            rq = scen.request(sc)
+            rq["op"] = "run_cfg"
+            rq["extra_forcing"] = sorted(rq["scalars"].keys())
+            rq["time"].update(dt=7, rev=not sc["rev"])
+            rq["tracker"].update(scheme="none", vertadv=not sc["vertadv"])
+            rq["output"].update(period=97, numrec=5, layout="dense" if sc["layout"] == "sparse" else "sparse")
+            rq["release"].update(continuous=not sc["continuous"], freq=13)
+            rq.pop("subgrid", None)
+            rq["config"] = g["trees"][name]["parsed"]
+            rq["glob"] = g["globs"]
+            reqs.append(rq); meta.append((sc, name, g["runs"][name]))
+    want = driver(reqs)
+    for (sc, name, r), w in zip(meta, want):
+        case = dict(scenario=scen.brief(sc), spelling=name)
+        ctx.case("run-from-config", [sc["seed"], name], sample=case, nontrivial=True)
+        ctx.count("run-from-config:" + name)
+        if "error" in w:
+            if r["status"] == "ok":
+                ctx.violation("tie-broken", "run-from-config", case, dict(model=w, implementation="ok"))
+            continue
+        if r["status"] != "ok":
+            ctx.violation("failing-input", "run-from-config", case, dict(status=r["status"], theorem="Ladim.SimConfig.accepted_config_run"), tags=dict(first="status"))
+            continue
+        files = [dict(f, name=wf["name"]) for f, wf in zip(r["files"], w["files"])] if len(r["files"]) == len(w["files"]) else [dict(f, name="?") for f in r["files"]]
+        diffs = scen.compare_files(sc, files, w["files"])
+        if diffs:
+            ctx.violation("failing-input", "run-from-config", case,
+                          dict(differences=[dict(what=a, implementation=str(x)[:300], model=str(y)[:300]) for a, x, y in diffs[:3]],
+                               theorem="Ladim.SimConfig.v1_v2_same_run / spelled_*_same_run / omitted_means_default (Ladim.runFile)"),
+                          tags=dict(first=name))
 
     # ---- the parameters the modules derive from the configuration (period spellings, defaults of omitted keys)
     pcases = params_cases(ctx.seed + 1800, 300 if ctx.thorough else 60)
